@@ -21,6 +21,14 @@ func init() {
 	Controls["C23"] = append(Controls["C23"],
 		Control{"batch value cloned with append (nil for empty)", "kvdb/flushable/flushable.go", `common\.CopyBytes\(value\)\}\)`, "append([]byte(nil), value...)})", "C23.flushable.presence"},
 		Control{"snapshot copies tombstones as typed nil", "kvdb/flushable/flushable.go", `modifiedCopy\.Put\(it\.Key\(\), it\.Value\(\)\)`, "v, _ := it.Value().([]byte); modifiedCopy.Put(it.Key(), common.CopyBytes(v))", "C23.flushable.presence"})
+	Controls["C05"] = append(Controls["C05"],
+		Control{"branch table written back only once a fork exists", "vecengine/index.go", `(func \(vi \*Engine\) Flush\(\) \{\n\t)if vi\.bi != nil \{`, "${1}if vi.bi != nil && vi.AtLeastOneFork() {", "written back before"})
+	Controls["C07"] = append(Controls["C07"],
+		Control{"temporary-ID counter restarted on epoch load", "abft/indexed_lachesis.go", `p\.dagIndexer\.Reset\(p\.store\.GetValidators\(\), p\.store\.epochTable\.VectorIndex, p\.input\.GetEvent\)`, "p.uniqueDirtyID = uniqueID{new(big.Int)}", "never restarted"})
+	Controls["C17"] = append(Controls["C17"],
+		Control{"response queued on a sender not fixed by the session", "gossip/basestream/basestreamseeder/seeder.go", `s\.senders\[session\.senderI\]\.Enqueue`, "s.senders[int(i)%len(s.senders)].Enqueue", "session's own sender"})
+	Controls["C24"] = append(Controls["C24"],
+		Control{"prefix increment loses the overflow exit", "kvdb/table/table.go", `\tif len\(endBn\.Bytes\(\)\) > len\(prefix\) \{\n\t\t// overflow\n\t\treturn nil\n\t\}\n`, "", "C24.inc"})
 	Controls["C33"] = append(Controls["C33"],
 		Control{"over-weight Add keeps the stale entry", "utils/simplewlru/simplewlru.go", `(func \(c \*Cache\) Add\(key, value interface\{\}, weight uint\) \(evicted int\) \{\n)`, "${1}\tif weight > c.maxWeight {\n\t\treturn 0\n\t}\n", "C33.cache"})
 }
